@@ -26,7 +26,8 @@ class EmceeSMC(NumpySMCSampler):
         checkpoint_file_path: str | None = None,
         resume_from: str | bytes | dict | None = None,
     ):
-        self.sampler_kwargs = sampler_kwargs or {}
+        # Work on a copy: defaults are added and entries popped below
+        self.sampler_kwargs = dict(sampler_kwargs or {})
         self.sampler_kwargs.setdefault("nsteps", 5 * self.dims)
         self.sampler_kwargs.setdefault("progress", True)
         self.emcee_moves = self.sampler_kwargs.pop("moves", None)
